@@ -62,6 +62,18 @@ func (s *udpSink) drain(wait time.Duration) [][]byte {
 	}
 }
 
+// drainN waits (at most `timeout`) until n datagrams have been read, then takes whatever else is queued.
+// Loopback delivery is usually complete when the sender's write returns, but the receive side runs in a
+// softirq that a busy machine may defer: what the sender is KNOWN to have sent is waited for.
+func (s *udpSink) drainN(n int, timeout time.Duration) [][]byte {
+	out := s.drain(0)
+	deadline := time.Now().Add(timeout)
+	for len(out) < n && time.Now().Before(deadline) {
+		out = append(out, s.drain(200*time.Microsecond)...)
+	}
+	return out
+}
+
 func (s *udpSink) close() { s.conn.Close() }
 
 // decodeBatch decodes one datagram as the one-way thrift call emitMetricBatchV2(MetricBatch).
